@@ -37,8 +37,9 @@ class SingleValueRawTokenModel(base.RawTokenModel, RWValue[_V]):
 
     @raw_text.setter
     def raw_text(self, raw_text: str) -> None:
+        value = self._parse_value(raw_text)  # may refuse; nothing is modified in that case
         self._update_raw_text(raw_text)
-        self._value = self._parse_value(raw_text)
+        self._value = value
 
     @property
     def value(self) -> _V:
@@ -46,8 +47,9 @@ class SingleValueRawTokenModel(base.RawTokenModel, RWValue[_V]):
 
     @value.setter
     def value(self, value: _V) -> None:
+        raw_text = self._format_value(value)  # may refuse; nothing is modified in that case
         self._value = value
-        self._update_raw_text(self._format_value(value))
+        self._update_raw_text(raw_text)
 
     @classmethod
     @abc.abstractmethod
